@@ -152,6 +152,35 @@ Section Facts.
     now apply dot1_sum.
   Qed.
 
+  (* ---------------- N-d dot and matmul: every element is the sum of products over the
+     index pattern of numpy (dot: last axis of a with the second-to-last of b, all leading
+     positions of a against all stacks of b; matmul: stacks paired by broadcasting) ------------- *)
+  Theorem nd_dot_def PA Ln QB M (fa fb : nat -> A) :
+    (0 < Ln)%nat ->
+    nd_dot RE PA Ln QB M fa fb =
+    Ok (map (fun t => let p := Nat.div t (QB * M) in
+                      let q := Nat.modulo (Nat.div t M) QB in
+                      let m := Nat.modulo t M in
+                      bsum (fun l => fa (p * Ln + l)%nat * fb (q * Ln * M + l * M + m)%nat) Ln)
+            (seq 0 (PA * QB * M))).
+  Proof. intros H. unfold nd_dot. apply mapM_ok. intros t. now apply dot1_sum. Qed.
+
+  Theorem nd_matmul_def SA SB n Ln p (fa fb : nat -> A) :
+    (0 < Ln)%nat ->
+    nd_matmul RE SA SB n Ln p fa fb =
+    Ok (map (fun t => let s := Nat.div t (n * p) in
+                      let i := Nat.modulo (Nat.div t p) n in
+                      let j := Nat.modulo t p in
+                      let mi := unravel (bshape SA SB) s in
+                      bsum (fun l => fa (ravel_b SA mi * n * Ln + i * Ln + l)%nat
+                                     * fb (ravel_b SB mi * Ln * p + l * p + j)%nat) Ln)
+            (seq 0 (prodn (bshape SA SB) * n * p))).
+  Proof. intros H. unfold nd_matmul. apply mapM_ok. intros t. now apply dot1_sum. Qed.
+
+  Theorem nd_scale_def lft (sc : A) cnt (fa : nat -> A) :
+    nd_scale RE lft sc cnt fa = Ok (map (fun t => if lft then sc * fa t else fa t * sc) (seq 0 cnt)).
+  Proof. unfold nd_scale. apply mapM_ok. intros t. destruct lft; reflexivity. Qed.
+
   (* ---------------- ludet = parity * product of the pivots ---------------- *)
   Fixpoint bprod (f : nat -> A) (n : nat) : A :=
     match n with O => 1 | S k => bprod f k * f k end.
